@@ -46,6 +46,11 @@ def cases(prop, tier, seed):
                 out.append(dict(kind="C07", inner=name, dseed=int(rs.randint(1 << 30)), n=int(rs.randint(3, 9)), a=int(rs.randint(1, 5)),
                                 mode=t % 5, b=int(rs.randint(1, 8)) + (4 if t % 3 == 2 else 0), naps=int(rs.randint(1, 4)), sseed=int(rs.randint(0, 30)), t=t, cls=name,
                                 key=["C07", name, t]))
+            if name != "IntervalEstimationThreshold":
+                # structured cases (the same in every run): unequal availability, a request larger than some rows can take, batch = capacity
+                for j, (rows_av, naps_, b_) in enumerate((((1, 3, 2, 3), 2, 7), ((2, 1, 3), 3, 6), ((1, 1, 2, 2), 2, 6))):
+                    out.append(dict(kind="C07", inner=name, dseed=1000 + j, n=len(rows_av) + 1, a=3, mode=3, b=b_, naps=naps_, sseed=j, t=3 * j,
+                                    structured=list(rows_av), cls=name, key=["C07", name, "structured", j]))
     return out
 
 
@@ -266,6 +271,9 @@ def run_c07(case, fail):
     elif mode == 3:      # candidate indices + boolean availability matrix
         cand = rs.choice(n, int(rs.randint(1, n + 1)), replace=False)      # caller order, not sorted: matrix rows follow it
         A = rs.rand(len(cand), a) < 0.6
+        if case.get("structured"):
+            cand = np.arange(len(case["structured"]))[::-1].copy()
+            A = np.array([[j < v for j in range(a)] for v in case["structured"]])
         if case["t"] % 2:
             A = A.astype(int)            # 0/1 integer availability matrix
         annot = A
